@@ -99,7 +99,12 @@ class OnDiskSuite(Suite):
                 # close and reopen, from another working directory
                 seq.append(("close", live))
                 new = 3 - live if live in (1, 2) else 1
-                seq.append(("reopen", new, live, rng.choice(["abs-other-cwd", "rel-same-cwd", "abs"])))
+                mode = rng.choice(["abs-other-cwd", "rel-same-cwd", "abs", "rel-dotdot", "rel-other-cwd"])
+                if mode == "rel-other-cwd":
+                    # refused: try again properly so that the history goes on
+                    seq.append(("reopen", 9, live, mode))
+                    mode = "abs-other-cwd"
+                seq.append(("reopen", new, live, mode))
                 live = new
             elif rng.random() < 0.4:
                 seq.append(("clear", live))
@@ -173,7 +178,8 @@ class OnDiskSuite(Suite):
                     fn, token, ext = strategy(sname)
                     rel = {"rel": "disk.blm", "abs": os.path.join(work, "disk.blm"), "subrel": os.path.join("sub", "disk.blm")}[where]
                     res = call(BloomFilterOnDisk, rel, est_elements=est, false_positive_rate=fpr, hash_function=fn)
-                    line = f"od.new {h} est={est} fpr={dbl_bits(fpr)} "
+                    vpath = "/" + os.path.relpath(os.path.abspath(rel), tmp)
+                    line = f"od.new {h} est={est} fpr={dbl_bits(fpr)} path={vpath} "
                     if res[0] == "ok":
                         path = os.path.abspath(rel)
                         objs[h] = {"kind": "od", "obj": res[1], "path": path, "sname": sname, "rel": rel}
@@ -240,10 +246,19 @@ class OnDiskSuite(Suite):
                     elif mode == "rel-same-cwd":
                         os.chdir(work)
                         arg = os.path.relpath(o["path"], work)
+                    elif mode == "rel-other-cwd":
+                        # a relative name that does not designate the file from here: nothing to open
+                        os.chdir(os.path.join(tmp, "elsewhere"))
+                        arg = os.path.relpath(o["path"], work)
+                    elif mode == "rel-dotdot":
+                        os.chdir(os.path.join(work, "sub"))
+                        arg = os.path.join("..", os.path.relpath(o["path"], work))
                     else:
                         arg = o["path"]
                     res = call(BloomFilterOnDisk, arg, hash_function=fn)
-                    line = f"od.reopen {r} {src} "
+                    vcwd = "/" + os.path.relpath(os.getcwd(), tmp)
+                    varg = ("/" + os.path.relpath(arg, tmp)) if os.path.isabs(arg) else arg
+                    line = f"od.reopen {r} {src} cwd={vcwd} arg={varg} "
                     if res[0] == "ok":
                         D["reopen:" + mode] += 1
                         objs[r] = {"kind": "od", "obj": res[1], "path": o["path"], "sname": o["sname"]}
